@@ -1,7 +1,7 @@
 """Calls, builtins and operator dispatch for the abstract interpreter."""
 import ast
 
-from .efftree import END, RAISE, ev, alt, loop, concat, has_events
+from .efftree import END, RAISE, ev, alt, loop, concat, has_events, always_raises
 from .kinds import (shape_tainted, V, Closure, NOCONST, INTLIKE, UNK, CLASS_KIND, KIND_CLASS, BUILTIN_TYPE_KIND,
                     join, unknown, const, listof)
 from .loader import norm
@@ -151,6 +151,25 @@ class CallMixin:
             return END, unknown(taint)
         if l in PLAIN and l not in INTLIKE and r == "?":
             return END, unknown(taint)
+        if (l == "?" and r in CLASSKINDS) or (r == "?" and l in CLASSKINDS):
+            # one operand of unknown kind next to a wire: enumerate the kinds it can have
+            tree = None
+            val = None
+            for k in ("int", "LC", "LCB", "LCF"):
+                lv2 = V(k, lv.taint) if l == "?" else lv
+                rv2 = V(k, rv.taint) if r == "?" else rv
+                t, v = self.binary1(op, k if l == "?" else l, k if r == "?" else r, lv2, rv2, fr, node, reflected_name, compare)
+                if always_raises(t) or v.kind == frozenset(["never"]):
+                    continue
+                val = join(val, v)
+                if tree is None:
+                    tree = t
+                else:
+                    tag = (fr.fq, node.lineno, node.col_offset, "kind?=%s" % k)
+                    tree = alt(tag, False, t, tree)
+            if val is None:
+                return RAISE, V("never")
+            return tree, val
         if l == "?" or (l in PLAIN and r == "?"):
             # unknown receiver: may be any of the value classes
             return ev(("op?", op)), unknown(False) if not compare else V(frozenset(["bool", "LCB"]), taint)
